@@ -31,6 +31,18 @@ def main():
         print('unknown property ' + a.pid, file=sys.stderr)
         return 2
     mod = importlib.import_module('harness.' + CHECKS[a.pid])
+    # wall-clock budget: code under test that never ends (a queue that never runs empty, a session loop that never stops)
+    # must not hang the check for ever - it is reported as a machinery failure (exit 2), never as "ok"
+    import signal
+    budget = int(os.environ.get('VERIF_TIMEOUT', '') or (2400 if a.tier == 'quick' else 6 * 3600))
+
+    def on_alarm(signum, frame):
+        print('MACHINERY FAILURE: %s %s exceeded its wall-clock budget of %d s (possibly non-terminating code under test)'
+              % (a.pid, a.tier, budget), file=sys.stderr)
+        sys.stderr.flush()
+        os._exit(2)
+    signal.signal(signal.SIGALRM, on_alarm)
+    signal.alarm(budget)
     try:
         if a.replay:
             return mod.replay(a.pid, a.replay)
